@@ -53,6 +53,9 @@ MenuLedger == Installs({"cA", "cB"}, B, B, F, F, F) \cup Upgrades({"cA", "cB"}, 
 MenuCluster == Installs({"cA", "cB", "cC", "cK"}, B, F, F, B, F) \cup Upgrades({"cA", "cB", "cC", "cK", "cV"}, F, F, {0}, F, B, F)
                \cup Rollbacks({0, 1}, {0}, F, F, F) \cup Uninstalls(B, F, F)
                \cup Forced(Upgrades({"cA", "cB", "cC"}, F, F, {0}, F, F, F) \cup Rollbacks({0}, {0}, F, F, F))
+\* failed operations followed by retries (C02: what a retry diffs against)
+MenuRetry == Installs({"cA", "cC"}, B, F, F, F, F) \cup Upgrades({"cA", "cB", "cC", "cK", "cV"}, F, B, {0}, F, F, F)
+             \cup Rollbacks({0}, {0}, F, F, F)
 \* fault family (C03): atomic x cleanup x no-hooks
 MenuFault == Installs({"cA", "cH"}, F, B, B, F, F) \cup Upgrades({"cB", "cI", "cC"}, B, B, {0}, B, F, F)
              \cup Rollbacks({0, 1}, {0}, B, B, F) \cup Uninstalls(F, F, F)
